@@ -966,7 +966,14 @@ def replay_dirty_flag(model, rec):
                             return True, f"version {version}, state '{sname}': the line {line!r} changes the persisted view but need_save stays False: a stop() right after it writes nothing"
                         if len(events) != 1:
                             return True, f"version {version}, state '{sname}': the line {line!r} changes the state and the event callback fired {len(events)} times"
+                    if len(events) == 1:
+                        m = events[0]
+                        got = (m.node_id, m.child_id, int(m.type), m.ack, int(m.sub_type), str(m.payload))
+                        f = line.split(";")
+                        want = (int(f[0]), int(f[1]), int(f[2]), int(f[3]), int(f[4]), f[5])
+                        if got != want:
+                            return True, f"version {version}, state '{sname}': for the line {line!r} the event callback received the fields {got!r}"
     return False, "every state-changing line marks the state unsaved and fires one event"
 
 
-HOOKS.insert(0, (re.compile(r"reservation-marked-dirty|dirty-on-change|dirty-sticky|events-on-change"), replay_dirty_flag))
+HOOKS.insert(0, (re.compile(r"reservation-marked-dirty|dirty-on-change|dirty-sticky|events-on-change|events-at-most-one"), replay_dirty_flag))
